@@ -5,6 +5,9 @@ HERE = os.path.dirname(os.path.dirname(os.path.abspath(__file__)))
 
 # id -> (technique, level text, level note, design section)
 CHECKS = {
+ "C20": ("property-based testing: three generated sub-checks (payload identity through single layers and stacks; strict contract-checking / tower Buffer / ConcurrencyLimit inner services with generated readiness scripts; metamorphic listener runs with generated panicking subsets)",
+         "Generated search over the 13 middleware and 6 stacks from the composition guide: transparency by serial/payload identity, Tower readiness by a per-instance readiness flag and tower's own readiness panics, listeners by comparing runs with none / quiet / panicking listeners. Exploration.",
+         "Stacks are a fixed menu; hedge's AllAttemptsFailed is accepted as its pass-through variant; through Buffer a readiness error loses its type by Buffer's design.", "5/C20"),
  "C10": ("model-based property testing: generated request/advance histories compared with a reference cache kept as a set of worlds; every inner response carries a fresh serial",
          "Generated search over policy, size, TTL, private/cloned/shared stores and histories up to 80/500 operations with overlapping misses and reads exactly at the TTL; each observation (inner called or not, value returned) prunes the worlds, a violation needs all worlds to disagree. Exploration.",
          "Worlds cover LFU ties, expired-entry purging, exact-TTL reads and whether LFU counts updates; cases whose world set exceeds 4000 are cut short (classified, not violations).", "5/C10"),
